@@ -165,11 +165,14 @@ def run_dir(name):
 # ---------------------------------------------------------------------------------------------------------------------
 # TLC
 # ---------------------------------------------------------------------------------------------------------------------
+_TLC_SEQ = __import__('itertools').count()
+
+
 def tlc(module, cfg=None, env=None, workers=1, timeout=900, metadir=None, simulate=None, depth=None, xmx='6g',
         deque=False, coverage=False, extra=()):
     """Runs TLC on spec/<module>.tla. Returns a dict with the parsed statistics and the raw output."""
     cfg = cfg or module + '.cfg'
-    metadir = metadir or os.path.join(BUILD, 'run', 'tlc-%s-%d' % (module, os.getpid()))
+    metadir = metadir or os.path.join(BUILD, 'run', 'tlc-%s-%d-%d' % (module, os.getpid(), next(_TLC_SEQ)))
     shutil.rmtree(metadir, ignore_errors=True)
     os.makedirs(metadir, exist_ok=True)
     jvm = ['java', '-XX:+UseParallelGC', '-Xmx' + xmx, '-Xss64m']
@@ -388,13 +391,57 @@ def keep_replay(prop, name, lines):
 # validating a batch of executions, with known findings and confirmation of rejections
 # ---------------------------------------------------------------------------------------------------------------------
 def validate_batch(ev, prop, module, lines, signature_fn, name, cfg=None, timeout=900, deque=False, env=None,
-                   reset_key='"e":"reset"', describe_fn=None):
+                   reset_key='"e":"reset"', describe_fn=None, chunk_lines=2500, jobs=None, groups=None):
     """Validates the executions in 'lines' (separated by reset lines) with trace spec 'module'.
-    A rejected execution whose signature matches an open known finding is reported as KNOWN-FINDING and skipped;
+    The executions are cut into chunks of about chunk_lines lines that are validated concurrently (one TLC each); a chunk
+    with a rejection is then gone through again in order:
+    a rejected execution whose signature matches an open known finding is reported as KNOWN-FINDING and skipped;
     any other rejection is re-validated in isolation and, if it repeats, reported as a VIOLATION.
     Returns the number of violations found (0 or 1: the batch stops at the first one)."""
+    # groups: the executions already separated by the caller (lists of lines); otherwise they are cut at the reset lines
+    execs = [list(g) for g in groups] if groups is not None else split_executions(lines, reset_key)
+    chunks, cur, n = [], [], 0
+    for e in execs:
+        cur.append(e)
+        n += len(e)
+        if n >= chunk_lines:
+            chunks.append(cur)
+            cur, n = [], 0
+    if cur:
+        chunks.append(cur)
+    if len(chunks) <= 1:
+        return _validate_seq(ev, prop, module, execs, 0, signature_fn, name, cfg, timeout, deque, env, describe_fn)
+    rd = os.path.join(BUILD, 'run', '%s-%s%s' % (prop, name, _tag()))
+    os.makedirs(rd, exist_ok=True)
+
+    def one(i):
+        path = os.path.join(rd, 'chunk-%d.ndjson' % i)
+        write_lines(path, [ln for e in chunks[i] for ln in e])
+        try:
+            return validate_trace(module, path, cfg=cfg, timeout=timeout, deque=deque, env=env, xmx='4g')
+        finally:
+            if os.path.exists(path):
+                os.remove(path)
+    from concurrent.futures import ThreadPoolExecutor
+    with ThreadPoolExecutor(max_workers=jobs or max(2, min(6, NCPU // 2))) as ex:
+        results = list(ex.map(one, range(len(chunks))))
+    base = 0
+    for i, (ok, matched, total, r) in enumerate(results):
+        if ok:
+            ev.add_trace_run(r, len(chunks[i]), total)
+            if i == 0:
+                for e in chunks[i][:2]:
+                    ev.sample({'trace': name, 'first_lines': e[:6], 'lines': len(e)})
+        else:
+            v = _validate_seq(ev, prop, module, chunks[i], base, signature_fn, name, cfg, timeout, deque, env, describe_fn)
+            if v:
+                return v
+        base += len(chunks[i])
+    return 0
+
+
+def _validate_seq(ev, prop, module, execs, base, signature_fn, name, cfg, timeout, deque, env, describe_fn):
     findings = load_findings(prop)
-    execs = split_executions(lines, reset_key)
     rd = os.path.join(BUILD, 'run', '%s-%s%s' % (prop, name, _tag()))
     os.makedirs(rd, exist_ok=True)
     start = 0
@@ -429,7 +476,7 @@ def validate_batch(ev, prop, module, lines, signature_fn, name, cfg=None, timeou
             sig += '/invariant:' + ','.join(r['invariant_violated'])
         if r.get('overflow'):
             ev.cov['executions_dropped_tlc_overflow'] = ev.cov.get('executions_dropped_tlc_overflow', 0) + 1
-            log('[overflow] execution %d of %s has numbers too wide for TLC (32-bit): skipped' % (start + k, name))
+            log('[overflow] execution %d of %s has numbers too wide for TLC (32-bit): skipped' % (base + start + k, name))
             start += k + 1
             continue
         f = match_finding(findings, sig)
@@ -456,6 +503,6 @@ def validate_batch(ev, prop, module, lines, signature_fn, name, cfg=None, timeou
         ev.sample({'violating_line': bad_line, 'signature': sig, 'replay': rp})
         desc = describe_fn(json.loads(bad_line), bad_exec, bad_idx, r) if describe_fn else ''
         violation(prop, rp, 'spec %s rejects line %d of execution %d of %s: %s  signature=%s %s' % (
-            module, bad_idx + 1, start + k, name, bad_line[:400], sig, desc))
+            module, bad_idx + 1, base + start + k, name, bad_line[:400], sig, desc))
         return 1
     return 0
